@@ -19,6 +19,8 @@ thread_local! {
     pub static LEDGERS: RefCell<[Ledger; 2]> = RefCell::new([Ledger::default(), Ledger::default()]);
     /// number of further `Clone::clone` calls that succeed; negative = unarmed
     pub static CLONE_FUSE: Cell<i64> = const { Cell::new(-1) };
+    /// number of further payload comparisons (`Ord::cmp`) that succeed; negative = unarmed
+    pub static CMP_FUSE: Cell<i64> = const { Cell::new(-1) };
     /// total number of payload clones (distribution statistics)
     pub static CLONES: Cell<u64> = const { Cell::new(0) };
 }
@@ -35,6 +37,7 @@ pub fn take_events(side: usize) -> Vec<String> {
 pub fn reset_ledgers() {
     LEDGERS.with(|l| *l.borrow_mut() = [Ledger::default(), Ledger::default()]);
     CLONE_FUSE.with(|c| c.set(-1));
+    CMP_FUSE.with(|c| c.set(-1));
 }
 /// (double drop seen, something still live) for a side
 pub fn audit(side: usize) -> (bool, bool) {
@@ -45,6 +48,14 @@ pub fn audit(side: usize) -> (bool, bool) {
 }
 pub fn double_drop_seen(side: usize) -> bool { LEDGERS.with(|l| l.borrow()[side].double_drop) }
 pub fn arm_clone_fuse(k: i64) { CLONE_FUSE.with(|c| c.set(k)); }
+pub fn arm_cmp_fuse(k: i64) { CMP_FUSE.with(|c| c.set(k)); }
+fn cmp_tick() {
+    let boom = CMP_FUSE.with(|c| {
+        let v = c.get();
+        if v == 0 { c.set(-1); true } else { if v > 0 { c.set(v - 1); } false }
+    });
+    if boom { panic!("cmp fuse") }
+}
 
 fn created(id: u32) { with_ledger(|l| *l.live.entry(id).or_insert(0) += 1); }
 fn dropped(id: u32) {
@@ -72,8 +83,11 @@ pub trait Leaf: Sized {
 }
 
 /// payload of `4 + N` bytes
-#[derive(Debug, PartialEq, Eq, PartialOrd, Ord, Hash)]
+#[derive(Debug, PartialEq, Eq, Hash)]
 pub struct Tk<const N: usize> { pub id: u32, pad: [u8; N] }
+/// the user's `Ord` implementation: may be told to panic at its k-th call (`cmpfuse`)
+impl<const N: usize> Ord for Tk<N> { fn cmp(&self, o: &Self) -> std::cmp::Ordering { cmp_tick(); self.id.cmp(&o.id) } }
+impl<const N: usize> PartialOrd for Tk<N> { fn partial_cmp(&self, o: &Self) -> Option<std::cmp::Ordering> { Some(self.cmp(o)) } }
 impl<const N: usize> Tk<N> { pub fn new(id: u32) -> Self { created(id); Tk { id, pad: [0xAB; N] } } }
 impl<const N: usize> Drop for Tk<N> { fn drop(&mut self) { dropped(self.id) } }
 impl<const N: usize> Clone for Tk<N> {
